@@ -1,3 +1,4 @@
+import RossModel.Lemmas.SerialEnd
 import RossModel.Lemmas.EndToEnd
 /-!
 # C01 — End-to-end: sent events reach the peer's handlers intact, once, in order
